@@ -62,3 +62,42 @@ func init() {
 		return out
 	}
 }
+
+// BodyVal is the harness-supplied body of an *http.Request (io.ReadCloser boundary).
+type BodyVal struct {
+	Data Slice
+	Fail bool
+}
+
+func init() {
+	// vHTTPRequest(method, url, body, fail) *http.Request
+	intrinsics[hpkg+"vHTTPRequest"] = func(in *Interp, fr *frame, call *ssa.CallCommon, args []Value) Value {
+		pkg := in.P.Prog.ImportedPackage("net/http")
+		if pkg == nil {
+			in.unsupported("package net/http not loaded")
+		}
+		rt := pkg.Type("Request").Type().(*types.Named)
+		st := rt.Underlying().(*types.Struct)
+		cell := new(Value)
+		*cell = in.zero(rt)
+		s := (*cell).(Struct)
+		s[fieldIndex(st, "Method")] = args[0]
+		s[fieldIndex(st, "URL")] = args[1]
+		s[fieldIndex(st, "Body")] = Iface{T: types.NewPointer(types.Typ[types.Uint8]), V: &BodyVal{Data: args[2].(Slice), Fail: term(args[3]).IsTrue()}}
+		return cell
+	}
+	readAll := func(in *Interp, fr *frame, call *ssa.CallCommon, args []Value) Value {
+		iv := args[0].(Iface)
+		b, ok := iv.V.(*BodyVal)
+		if !ok {
+			in.unsupported("io.ReadAll on a reader not built by vHTTPRequest")
+		}
+		in.noteModel("io.ReadAll(r.Body) returns the harness-supplied bytes or an error")
+		if b.Fail {
+			return Tuple{Slice{}, in.newError(Str{S: "read error"})}
+		}
+		return Tuple{b.Data, Iface{}}
+	}
+	intrinsics["io/ioutil.ReadAll"] = readAll
+	intrinsics["io.ReadAll"] = readAll
+}
